@@ -33,7 +33,7 @@ import (
 )
 
 type c09Op struct {
-	K     string `json:"k"` // register | unregister | deliver | pushpull | leave
+	K     string `json:"k"` // register | registerSlow | unregister | deliver | pushpull | leave
 	Node  int    `json:"node,omitempty"`
 	To    int    `json:"to,omitempty"`
 	Shard int    `json:"shard,omitempty"`
@@ -230,6 +230,53 @@ func c09Run(c c09Case) (res c09Result) {
 			n.snaps = append(n.snaps, n.sm.delegate.LocalState(false))
 			time.Sleep(time.Microsecond)
 			noteClaim(before)
+		case "registerSlow":
+			// Node records its claim and is descheduled before it announces it ("register.window"); meanwhile To claims
+			// the same shard (a newer claim) and announces; then Node announces. Both announcements are out afterwards.
+			other := nodes[((o.To%c.Nodes)+c.Nodes)%c.Nodes]
+			if n.left || other.left || other == n {
+				continue
+			}
+			gate := make(chan struct{})
+			parked := make(chan struct{})
+			var once sync.Once
+			hk := func(p string) {
+				if p != "register.window" {
+					return
+				}
+				first := false
+				once.Do(func() { first = true })
+				if first {
+					close(parked)
+					<-gate
+				}
+			}
+			vfYieldHook.Store(&hk)
+			done := make(chan time.Time, 1)
+			time.Sleep(time.Microsecond)
+			go func() { done <- n.sm.RegisterShard(c09ShardID(sh)) }()
+			select {
+			case <-parked:
+			case <-time.After(10 * time.Second):
+				vfYieldHook.Store(nil)
+				res.harness = "registerSlow: the registering goroutine never reached register.window"
+				return
+			}
+			time.Sleep(time.Microsecond)
+			other.regAt[sh] = other.sm.RegisterShard(c09ShardID(sh))
+			other.streamUp[sh] = true
+			other.snaps = append(other.snaps, other.sm.delegate.LocalState(false))
+			noteClaim(before)
+			time.Sleep(time.Microsecond)
+			mid := annLen()
+			close(gate)
+			n.regAt[sh] = <-done
+			vfYieldHook.Store(nil)
+			n.streamUp[sh] = true
+			n.snaps = append(n.snaps, n.sm.delegate.LocalState(false))
+			time.Sleep(time.Microsecond)
+			noteClaim(mid)
+			res.classes["claim_announced_after_a_newer_claim_was_made_and_announced"] = true
 		case "unregister":
 			if n.left || !n.streamUp[sh] {
 				continue
@@ -426,6 +473,8 @@ func c09Gen(t *rapid.T) c09Case {
 		x := rapid.IntRange(0, 99).Draw(t, "op")
 		node := rapid.IntRange(0, c.Nodes-1).Draw(t, "node")
 		switch {
+		case x < 5:
+			c.Ops = append(c.Ops, c09Op{K: "registerSlow", Node: node, To: rapid.IntRange(0, c.Nodes-1).Draw(t, "other"), Shard: rapid.IntRange(0, c.Shards-1).Draw(t, "shard")})
 		case x < 28:
 			c.Ops = append(c.Ops, c09Op{K: "register", Node: node, Shard: rapid.IntRange(0, c.Shards-1).Draw(t, "shard")})
 		case x < 38:
